@@ -30,7 +30,7 @@ def C01_sound_full : Prop :=
 
 /-- Proved for every trait type of the model — Int … CBool, float and int Range
 with every bound / exclusivity combination (NaN included: it is in no bounded
-range), Enum, Map, Tuple, BaseTuple, Instance (all adapt modes), Type, This,
+range), Enum, Map, Tuple, BaseTuple, ValidatedTuple (with and without fvalidate), Instance (all adapt modes), Type, This,
 Callable, Module, String (all four validator variants), PrefixList, PrefixMap,
 the legacy Trait*() handlers, Base* classes, and Either / Union / TraitCompound
 / Tuple nestings of any depth — provided no TraitCoerceType(float | complex)
@@ -127,8 +127,8 @@ def C01_passthrough_full : Prop :=
 
 /-- Proved: every exception other than TraitError leaves the object untouched,
 and it was raised by one of the things the validators call out to (`Src`: the
-value's numeric protocol, a type constructor, adapt, a user validator, an `==`
-of the value) or is the TypeError of an `Any` member — nothing else in the
+value's numeric protocol, a type constructor, adapt, a user validator or
+fvalidate predicate, an `==` of the value) or is the TypeError of an `Any` member — nothing else in the
 validators can raise.  What is missing for the full statement are exactly the
 last three sources of `Src`. -/
 theorem C01_passthrough_partial (E : Env) (hE : EnvOK E) (cls : ClassDef) (hwf : ClassWF cls)
